@@ -177,6 +177,7 @@ pub fn run_c03(tier: Tier) {
     }
     crate::corpus::c03_edits(tier);
     size_boundary_sweep("C03 sizes", corners, c03_eval);
+    deep_inputs();
 }
 
 // ---------------------------------------------------------------------------
@@ -333,7 +334,7 @@ pub fn run_c14(tier: Tier) {
     let blocks = Alphabet::new(
         "A_blocks",
         &[
-            ">> k: v\n", ">> time: 10\n", ">> [mode]: text\n", ">> [x]: y\n", ">>k:v", " >> a: b\n", ">> a\n", ">> : v\n", "= s\n", "step @a{1}\n", "> p\n", "\n",
+            ">> k: v\n", ">> time: 10\n", ">> [mode]: text\n", ">> [x]: y\n", ">> []: z\n", ">>k:v", " >> a: b\n", ">> a\n", ">> : v\n", "= s\n", "step @a{1}\n", "> p\n", "\n",
             "---\n", "k: v\n", "-- c\n", "[- c -]", "text ", ">> servings: 2|4\n", "\r\n", "[- c\n", "-]\n", "\\", "x",
         ],
     );
@@ -363,6 +364,77 @@ pub fn run_c17_crlf(tier: Tier) {
 
 /// Inputs with one very long token (and many tokens), at the sizes where a
 /// narrow length or offset type would wrap: 2^8 and 2^16 +- 1.
+// ---------------------------------------------------------------------------
+// very many lines of one kind: recursion depth must not grow with the input (a stack overflow aborts the
+// process, so each case runs in a child process on a thread with a 2 MiB stack)
+
+pub const DEEP_CASES: [(&str, &str, usize); 8] = [
+    ("`>>` lines without a colon", ">> x\n", 30_000),
+    ("`>>` entries", ">> k: v\n", 30_000),
+    ("one-line steps separated by blank lines", "a\n\n", 30_000),
+    ("section headers", "= s\n", 30_000),
+    ("lines of one multi-line step", "a\n", 30_000),
+    ("`>` paragraph lines", "> a\n", 30_000),
+    ("components in one step", "@a{1} ", 30_000),
+    ("block comments", "[- c -] ", 30_000),
+];
+
+pub fn deep_child(case: usize) {
+    let (_, unit, n) = DEEP_CASES[case % DEEP_CASES.len()];
+    let input = unit.repeat(n);
+    let h = std::thread::Builder::new().stack_size(2 << 20).spawn(move || {
+        for ext in [cooklang::Extensions::all(), cooklang::Extensions::empty()] {
+            let p = cooklang::CooklangParser::new(ext, cooklang::Converter::bundled());
+            let r = p.parse(&input);
+            let _ = r.report().iter().count();
+            let _ = p.parse_metadata(&input);
+            let n_events = cooklang::parser::PullParser::new(&input, ext).count();
+            let _ = cooklang::parser::PullParser::new(&input, ext).into_meta_iter().count();
+            let (ast, _) = cooklang::ast::build_ast(cooklang::parser::PullParser::new(&input, ext)).into_tuple();
+            std::hint::black_box((n_events, ast.is_some()));
+        }
+    });
+    match h.map(|h| h.join()) {
+        Ok(Ok(())) => std::process::exit(0),
+        _ => std::process::exit(3),
+    }
+}
+
+pub fn deep_inputs() {
+    let c = ctx();
+    if c.has_violations() {
+        return;
+    }
+    let exe = match std::env::current_exe() {
+        Ok(e) => e,
+        Err(_) => return,
+    };
+    let t0 = std::time::Instant::now();
+    let handles: Vec<_> = (0..DEEP_CASES.len()).map(|i| { let exe = exe.clone(); std::thread::spawn(move || std::process::Command::new(exe).args(["c03-deep", &i.to_string()]).output()) }).collect();
+    for (i, h) in handles.into_iter().enumerate() {
+        let (name, unit, n) = DEEP_CASES[i];
+        c.evaluations.fetch_add(10, std::sync::atomic::Ordering::Relaxed);
+        c.nontrivial.fetch_add(1, std::sync::atomic::Ordering::Relaxed);
+        match h.join() {
+            Ok(Ok(o)) if o.status.success() => {}
+            Ok(Ok(o)) => {
+                let err = String::from_utf8_lossy(&o.stderr);
+                let last = err.lines().rev().find(|l| !l.trim().is_empty()).unwrap_or("").chars().take(200).collect::<String>();
+                c.violation(Violation::new(
+                    format!("process aborted or panicked on {n} x {name}"),
+                    format!("{n} repetitions of {unit:?} (parse, parse_metadata, events, metadata events, build_ast on a 2 MiB stack): child exit {:?}; {last}", o.status.code()),
+                    json!({"kind": "deep", "case": i}),
+                ));
+            }
+            _ => {
+                eprintln!("engine: cannot run the child process for the deep-input cases");
+                std::process::exit(2);
+            }
+        }
+    }
+    c.part(json!({"part": "very many lines of one kind, each case in a child process on a 2 MiB stack", "cases": DEEP_CASES.iter().map(|(n, u, k)| format!("{k} x {u:?} ({n})")).collect::<Vec<_>>(), "wall_s": t0.elapsed().as_secs_f64()}));
+}
+
 pub fn size_boundary_sweep(name: &str, cfgs: Arc<Vec<Config>>, eval: impl Fn(&Config, &str) -> (Vec<Violation>, bool, u64) + Sync) {
     if ctx().has_violations() {
         return;
